@@ -30,7 +30,7 @@ FKINDS = ['file', 'dir', 'symfile', 'symdir', 'dangling', 'collide-symlink', 'co
 CREATORS = ['asarray', 'create_array', 'asraggedarray', 'create_raggedarray', 'Array.copy', 'RaggedArray.copy', 'archive']
 FAILS = [None, 'iter-raises-later', 'bad-later-item']
 OCCUPANTS = ['none', 'array', 'array-large', 'ragged', 'file', 'dir']
-MUST_HIT = (['delete:stale-object', 'create:failing-input'] + [f'foreign:{k}' for k in FKINDS] + ['where:values', 'where:indices', 'where:top', 'delete:success', 'delete:foreign->OSError',
+MUST_HIT = (['archive:spelling', 'delete:stale-object', 'create:failing-input'] + [f'foreign:{k}' for k in FKINDS] + ['where:values', 'where:indices', 'where:top', 'delete:success', 'delete:foreign->OSError',
             'delete:wrongkind->TypeError', 'form:obj', 'form:str', 'form:path'] +
             [f'create:{c}:ow={o}' for c in CREATORS for o in (False, True)] + [f'occupant:{o}' for o in OCCUPANTS])
 
@@ -116,6 +116,11 @@ def foreign_subset(snap, names):
 
 
 def execute(ctx, spec):
+    if spec.get('f') == 'archive-spelling':
+        # archive() given a path spelling ('~/x', './x', relative, absolute) with older files at every place the spelling could
+        # be taken to mean: shared with C15 (same clause: an existing path is not replaced without overwrite=True)
+        from checks import c15
+        return c15._exec_archive_spelling(ctx, spec)
     import darr
     out = Outcome()
     with ctx.scratch() as d:
@@ -428,6 +433,8 @@ def grid():
 
 
 def task_grid(ctx, col, shard):
+    from checks import c15
+    enum_search(ctx, col, (s for i, s in enumerate(c15.spelling_grid()) if i % NSHARDS == shard), lambda s: execute(ctx, s))
     enum_search(ctx, col, (s for i, s in enumerate(grid()) if i % NSHARDS == shard), lambda s: execute(ctx, s))
 
 
